@@ -11,6 +11,9 @@ Real functions executed symbolically:
   makegammas: with x, y symbolic, d/dx and d/dy of every Noll-normalised mode (exact Cartesian polynomial,
   differentiated by the harness) equal sum_j gamma[i,j] Z_j(x,y) - a polynomial identity over algebraic square
   roots, one query per mode and axis.
+  zernikeRadialFunc(n, m, r) with r symbolic in [0, 1] = the radial polynomial with exact rational coefficients for
+  every (n, m) up to n = 30 (quick) / 60 (thorough): NumPy integer tables stay native int64 in the engine, so a
+  factorial table that wraps is seen;
 Outside: orthonormality as the grid is refined (limit), float rounding of numpy.sqrt for j > 2^50.
 """
 import math
@@ -313,6 +316,51 @@ def case_gamma(ctx, nzrad):
                       replay=lambda mm, i=i, axis=axis: replay_gamma(nzrad, i, axis), timeout_ms=60000)
 
 
+# ------------------------------------------------------------------ radial polynomials of high order
+def radial_coeffs(n, m):
+    return [(n - 2 * s_, Fr((-1) ** s_ * math.factorial(n - s_),
+                            math.factorial(s_) * math.factorial((n + m) // 2 - s_) * math.factorial((n - m) // 2 - s_)))
+            for s_ in range((n - m) // 2 + 1)]
+
+
+def replay_radial(n, m, r):
+    zm, _ = _zm()
+    r = min(max(float(r), 0.0), 1.0)
+    try:
+        got = float(zm.zernikeRadialFunc(n, m, numpy.array([r]))[0])
+    except Exception as e:
+        return True, dict(what="zernikeRadialFunc(%d, %d, r) raises %s: %s" % (n, m, type(e).__name__, e))
+    rr = Fr(r)
+    terms = [c * rr ** k for k, c in radial_coeffs(n, m)]
+    want = float(sum(terms))
+    scale = float(sum(abs(t) for t in terms))
+    bad = not (abs(got - want) <= 1e-9 * scale + 1e-300)
+    return bool(bad), dict(what="zernikeRadialFunc(%d, %d, %r) = %r, the radial polynomial is %r" % (n, m, r, got, want))
+
+
+def case_radial(ctx, nlo, nhi):
+    zm, _ = _zm()
+    ctx.encoded(zm.zernikeRadialFunc)
+    ctx.bounds.update(radial_orders=[nlo, nhi], azimuthal="every m with n-m even", r="symbolic real in [0, 1] (array of one sample)")
+    r = var("r")
+    pre = [z(r.re) >= 0, z(r.re) <= 1]
+    ra = numpy.empty(1, dtype=object)
+    ra[0] = r
+    ra = ra.view(core.SA)
+    for n in range(nlo, nhi + 1):
+        for m in range(n % 2, n + 1, 2):
+            with npx.symbolic(zm):
+                got = numpy.asarray(zm.zernikeRadialFunc(n, m, ra), dtype=object)
+            ctx.paths += 1
+            want = Sym(0)
+            for k, c in radial_coeffs(n, m):
+                want = want + (r ** k) * c
+            ctx.prove("R_%d^%d(r) = sum_s (-1)^s (n-s)! / (s! ((n+m)/2-s)! ((n-m)/2-s)!) r^(n-2s)" % (n, m), pre,
+                      conj(eqs(got[0], want)), replay=(lambda mdl, n=n, m=m: replay_radial(n, m, mdl(r))), timeout_ms=60000, axioms=False)
+    ctx.validate("zernikeRadialFunc", [float(sum(c * Fr(3, 8) ** k for k, c in radial_coeffs(nhi, nhi % 2)))],
+                 lambda: [float(zm.zernikeRadialFunc(nhi, nhi % 2, numpy.array([0.375]))[0])], tol=1e-6)
+
+
 def build_cases(tier):
     cases = []
     chunks = [(1, 60), (61, 150), (151, 300)] if tier == "quick" else [(1, 60), (61, 150), (151, 300), (301, 500), (501, 750), (751, 1000), (1001, 1300), (1301, 1600), (1601, 2000)]
@@ -321,6 +369,9 @@ def build_cases(tier):
     cases.append(("index/fresh-results", case_index_alias, {}))
     for N, nm in ([(4, 6), (5, 10)] if tier == "quick" else [(4, 6), (5, 10), (8, 15), (9, 21), (16, 10)]):
         cases.append(("modes/N=%d/modes=%d" % (N, nm), case_modes, dict(N=N, nmodes=nm)))
+    for lo, hi in ([(0, 12), (13, 20), (21, 26), (27, 30)] if tier == "quick" else
+                   [(0, 12), (13, 20), (21, 26), (27, 30), (31, 36), (37, 42), (43, 48), (49, 54), (55, 60)]):
+        cases.append(("radial/n=%d..%d" % (lo, hi), case_radial, dict(nlo=lo, nhi=hi)))
     for nz in ([2, 3] if tier == "quick" else [2, 3, 4, 5]):
         cases.append(("gamma/nzrad=%d" % nz, case_gamma, dict(nzrad=nz)))
     return cases
